@@ -219,7 +219,7 @@ def trace_core(ctx, prop, runs):
     from concurrent.futures import ThreadPoolExecutor
     chunks = 1 if runs <= 12 else min(12, runs // 12)
     tf = os.path.join(ctx.scratch, f"trace-{prop}.ndjson")
-    s = hv(ctx, "record", trace=tf, runs=runs, chunks=chunks, large_every=(10 if ctx.quick else 15))
+    s = hv(ctx, "record", trace=tf, runs=runs, chunks=chunks, large_every=(10 if ctx.quick else 15), fan_every=5)
     files = [tf] if chunks == 1 else [f"{tf}.{c}" for c in range(chunks)]
     idx = s["extra"]["runs"]
 
@@ -241,7 +241,7 @@ def trace_core(ctx, prop, runs):
             ev["proj"] = "<projection omitted>"
         os.makedirs(REPLAYS, exist_ok=True)
         rp = os.path.join(REPLAYS, f"{prop}-trace-seed{ctx.seed}-run{run['run']}.json")
-        json.dump({"cmd": "trace-core", "property": prop, "seed": ctx.seed, "run": run["run"], "large_every": (10 if ctx.quick else 15), "line": line_no, "event": ev,
+        json.dump({"cmd": "trace-core", "property": prop, "seed": ctx.seed, "run": run["run"], "large_every": (10 if ctx.quick else 15), "fan_every": 5, "line": line_no, "event": ev,
                    "diffs": [f"recorded event at trace line {line_no} is not a step of the specification (TraceCore, focus {prop})"]}, open(rp, "w"), indent=1)
         ctx.violations.append(dict(property=prop, what=f"trace validation: event {ev.get('e')} of run {run['run']} rejected by the specification", replay=rp))
 
@@ -681,7 +681,7 @@ def replay_trace(path, v):
     try:
         if v["cmd"] == "trace-core":
             tf = os.path.join(ctx.scratch, "replay.ndjson")
-            hv(ctx, "record", trace=tf, runs=int(v["run"]) + 1, only_run=v["run"], large_every=v.get("large_every", 10))
+            hv(ctx, "record", trace=tf, runs=int(v["run"]) + 1, only_run=v["run"], large_every=v.get("large_every", 10), fan_every=v.get("fan_every", 5))
             ok, line_no = tlc_trace(ctx, f"trace/TraceCore{prop}.cfg", "trace/TraceCore.tla", tf)
         else:
             src = os.path.join(ctx.scratch, "line.txt")
